@@ -192,12 +192,13 @@ def cacheInnerJson : Fields := .cons "A".toList (some "a,optional".toList) (.pri
 def cacheInnerForm : Fields := .cons "A".toList (some "a".toList) (.prim (.int 64)) .nil
 def cacheOuterJson : Ty := .struct (.cons "In".toList (some "in".toList) (.struct cacheInnerJson) .nil)
 
-/-- OPEN DEFECT found in round 4 (replayed on the real code): `structRequiredCache` is keyed by the reflect type alone, not by
-(tag key, type).  For `type Inner struct{ A int `json:"a,optional" form:"a"` }`, `type Outer struct{ In Inner `json:"in" form:"in"` }`:
-under `json` no field of Inner is required, `{}` meets every constraint and is accepted in a fresh process; once a `form`
-unmarshaler has asked about Inner (answer: required, `a` has no options there) the `json` unmarshaler is handed that
-answer and rejects `{}` with `"in" is not set` — acceptance depends on which unmarshaler saw the type first.
-Repaired by fixes/C08-struct-required-cache-per-tag-key.patch (cache key = tag key + type). -/
+/-- PINNED BEHAVIOUR BEFORE a8b007f (defect found in round 4, fixed by fixes/C08-struct-required-cache-per-tag-key.patch =
+/repo a8b007f: cache key = tag key + type): `structRequiredCache` was keyed by the reflect type alone.  For
+`type Inner struct{ A int `json:"a,optional" form:"a"` }`, `type Outer struct{ In Inner `json:"in" form:"in"` }`: under `json` no field
+of Inner is required, `{}` meets every constraint and is accepted; once a `form` unmarshaler had asked about Inner (answer:
+required, `a` has no options there) the `json` unmarshaler was handed that answer (last conjunct) and rejected `{}` with
+`"in" is not set` — acceptance depended on which unmarshaler saw the type first.  The `um` lines of the mapping harness
+replay it; on a tree without the fix the check reports rejected-but-constraints-met with a two-line replay. -/
 theorem structRequiredCache_witness :
     (match structRequired cacheInnerJson with | .ok false => true | _ => false) = true
     ∧ (match structRequired cacheInnerForm with | .ok true => true | _ => false) = true
